@@ -434,6 +434,11 @@ def _index_forwarding(ctx):
     with ctx.only("__getitem__"):          # a selection that is written back must select what NumPy would select
         r6_index_forwarding(ctx)
 
+def _mutable_defaults(ctx):
+    from .c20 import r9_mutable_defaults
+    r9_mutable_defaults(ctx, ("bionumpy.bnpdataclass.lazybnpdataclass", "bionumpy.io.file_buffers", "bionumpy.io.delimited_buffers", "bionumpy.io.one_line_buffer"))   # the overlay of assigned fields is per table
+
+
 RULES = [
     ("C04-R6", r6_lazy_derivations),
     ("C04-R1", r1_pass_through),
@@ -451,4 +456,5 @@ RULES = [
     ("C04-R12", _shared_tables_not_written),
     ("C04-R13", _late_bound_constants),
     ("C04-R14", _index_forwarding),
+    ("C04-R15", _mutable_defaults),
 ]
